@@ -39,6 +39,7 @@ Result == Walk(1, {})
 Verdict ==
   IF Result.verdict # "none" THEN Result.verdict
   ELSE IF \E e \in Exps : e.wok = 1 /\ e.req \notin Result.matched THEN "OkImpliesWhole"
+  ELSE IF \E e \in Exps : e.wok = -2 /\ e.req \in Result.matched THEN "NotStartedNoBytes"   \* wok -2: reported not started
   ELSE IF Result.torn /\ WireRec.closed = 0 THEN "PartialWithoutClose"
   ELSE "none"
 
